@@ -725,6 +725,6 @@ MANIFEST = dict(
          'all-ASCII, high-bit and mixed oid patterns are covered by path conditions, not samples.  Round trip: solver-'
          'enumerated graph shapes (adjacency bits, node kinds) stored and re-loaded through the real connections.',
     note='pure-Python zodbpickle stands in for the C unpickler symbolically (replayed with C); <= 3 references / 3 new '
-         'nodes; missing-class placeholders (broken.py) and export/import are not driven; values concrete.',
+         'nodes; missing-class placeholders: 3 kinds of breakage on one persistent + one plain object (missing_class); export/import: 3 nodes (export_import); values concrete.',
     design_ref='DESIGN.md section 4, C14',
 )
